@@ -5,6 +5,7 @@ use crate::item::Scenario;
 use crate::prng::Rng;
 use crate::w_defrag;
 use crate::w_flow;
+use crate::w_ser;
 use crate::w_stream;
 
 pub fn generate(prop: Prop, rng: &mut Rng) -> Scenario {
@@ -12,6 +13,7 @@ pub fn generate(prop: Prop, rng: &mut Rng) -> Scenario {
         Prop::C07 => w_defrag::generate(rng, prop),
         Prop::C02 | Prop::C03 | Prop::C16 => w_stream::generate(rng, prop),
         Prop::C08 => w_flow::generate(rng, prop),
+        Prop::C09 => w_ser::generate(rng, prop),
         _ => w_defrag::generate(rng, prop),
     }
 }
@@ -21,6 +23,7 @@ pub fn execute(scn: &Scenario, ctx: &mut Ctx) {
         "defrag" => w_defrag::execute(scn, ctx),
         "stream" => w_stream::execute(scn, ctx),
         "flow" => w_flow::execute(scn, ctx),
+        "ser" => w_ser::execute(scn, ctx),
         _ => {}
     }
 }
@@ -106,6 +109,18 @@ pub fn meta(prop: Prop) -> Meta {
                 "the reference acceptor is a transcription of the documented flows and of the property statement (limited independence: not a second implementation by another author)",
                 "where the statement's two universal clauses collide (state Finished + HelloRequest) 'Finished always moves to Invalid' takes precedence",
                 "message content is sampled within each kind; the 25 x 2 x 23 cell coverage is measured and reported, not guaranteed",
+            ],
+        },
+        Prop::C09 => Meta {
+            level: "exploration",
+            rule: "one evaluation = one run of the sending node: 1..4 serialization operations on seeded values (ClientHello incl. up to 32767 ciphers / 255 compressions / 65535-byte extension blocks, ServerHello SSLv3..TLS1.2, draft-18 ServerHello, ClientKeyExchange Unknown/Dh/Ecdh, Finished, HelloRequest, ChangeCipherSpec, plaintext records of them, SNI / max-fragment-length / supported-groups extensions and lists, unsupported values, and values obtained from the real parser) written through gen(f, sink) into the simulated Write sink under a seeded fault plan, or through Serialize::serialize; the receiving node is the real parser; distinct = distinct abstract traces (value kind x entry point x sink mode x outcome x size class per operation); non-trivial = at least 2 operations or a fault configured",
+            fault_kinds: &["write-short", "write-zero", "write-interrupted", "write-error", "sink-full", "sink-fault-fired", "coalesce", "value-from-parser"],
+            cell_spaces: vec![("ser", None)],
+            real: &["gen_tls_plaintext", "gen_tls_message", "gen_tls_clienthello", "gen_tls_serverhello", "gen_tls_serverhellodraft18", "gen_tls_clientkeyexchange", "gen_tls_finished", "gen_tls_hellorequest", "gen_tls_changecipherspec", "gen_tls_extension(s)", "Serialize::serialize", "parse_tls_plaintext / parse_tls_message_handshake / parse_tls_message_changecipherspec / parse_tls_extensions (receiving node)", "cookie-factory WriteContext (dependency, real)"],
+            stub: &["value generator", "reference RFC encoder (byte oracle)", "simulated Write sink with fault plan", "fixed-size &mut [u8] sink (std impl)"],
+            assumptions: &[
+                "values are drawn within the stated wire limits (session id absent or 1..32 bytes, SSLv3 ServerHello without extension block, draft-18 form with version 0x7f12, records within the record cap)",
+                "faulty sink oracle is deliberately narrow: the call may fail; only 'Ok => the sink holds the complete fault-free encoding' is required",
             ],
         },
         Prop::C16 => Meta {
